@@ -67,6 +67,30 @@ CLAIMED = {
         note=("Level: optimized LLVM IR before instruction selection, default target features; public lengths fixed per "
               "driver. Micro-architectural timing and the x86 lowering of select are outside."),
     ),
+    "C19": dict(
+        engine="llsym",
+        technique="path-forking symbolic execution of optimized LLVM IR with all input bytes symbolic; z3 prunes infeasible branches; panic calls and inexact status words are the violations; native crash replay",
+        category="model_checking",
+        text=("Every decoder (field, scalar, point, public key), ECDH with an arbitrary peer string, hash-to-curve / "
+              "one-way maps and X25519 are executed from the -O3 IR at each length in the bound with all bytes symbolic; "
+              "all feasible paths must return without reaching a panic routine or an out-of-bounds access, and status "
+              "words must be exactly 0 or 0xFFFFFFFF (z3 on over-approximated cones)."),
+        design_ref="DESIGN.md 3 C19, 8",
+        note=("Lengths bounded (0, L-1, L, L+1; SEC1: 0,1,32,33,64,65,66). Variable-time verification functions and "
+              "split_vartime are covered by engine K contributions where present (FROST, LMS, Lagrange); truncated "
+              "verification is outside."),
+    ),
+    "C11": dict(
+        engine="llsym+kani",
+        technique="symbolic execution of optimized LLVM IR (constant-time splits: totality, sign words; z3) and Kani/CBMC harnesses (Lagrange reduction, split_vartime glue) when present",
+        category="model_checking",
+        text=("split_mu / split_theta / split_mu_odd are straight-line in the optimized IR for every scalar (no panic "
+              "branch reachable) and their sign words are exact; eigenvalue relations are ground facts. The algebraic "
+              "contract needs a rounded-division lemma that does not close within budget and is not posed (see evidence). "
+              "The variable-time half is contributed by props/C11_kani.py."),
+        design_ref="DESIGN.md 3 C11, 8",
+        note="Partial claim: see evidence.outside_claim for exactly what is not posed.",
+    ),
 }
 
 NA_REASON = "check not built yet (work in progress; see DESIGN.md section 8)"
@@ -101,7 +125,7 @@ man = {
     "engines": [
         {"name": "polyid", "path": "engines/polyid", "serves_properties": ["C03"],
          "kind_free_text": "interpreter over rustc MIR executing point formulas over an abstract ring; z3 decides polynomial identities"},
-        {"name": "llsym", "path": "engines/llsym", "serves_properties": ["C01", "C02", "C05", "C20"],
+        {"name": "llsym", "path": "engines/llsym", "serves_properties": ["C01", "C02", "C05", "C11", "C19", "C20"],
          "kind_free_text": "symbolic executor over rustc's optimized LLVM IR (concrete control, symbolic data) with bit-vector and integer SMT encodings; z3/cvc5 decide"},
     ],
     "checks": checks,
